@@ -148,10 +148,11 @@ def _stype(mpc, typ):
 
 
 def _mk(typ, st_, v):
+    if typ[0] == 'fxp':
+        # the integral flag is public and must agree at all parties: set it explicitly
+        return st_(None if v is None else v / 2 ** typ[2], integral=False)
     if v is None:
         return st_(None)
-    if typ[0] == 'fxp':
-        return st_(v / 2 ** typ[2])
     return st_(v)
 
 
